@@ -29,8 +29,8 @@ PROPS = {
         'assumptions': ["API-valid pods only (the hypothesis is necessary: the API-invalid stream shows counterexamples)"],
     },
     'C04': {
-        'level_text': "Theorem C04_resolves, generic in the payload type: for every well-formed check set, level and requested version (latest or v1.N, N unbounded) the loop-level model of populate/inflateVersions/EvaluatePod returns exactly the resolution rule `spec` at the version clamped to the newest revision; C04_privileged; C04_latest_is_newest. Random valid and malformed check sets with marker functions are run through the real NewEvaluator and compared with the model and with an independent Go transcription of the rule and of the malformedness list.",
-        'level_note': "Trusted: Lean kernel; harness. Domain: revisions with major version 1 (a revision with another major makes the real NewEvaluator loop forever; outside the property's list). validateChecks <-> WellFormed is compared differentially and against the Go oracle, not yet proved.",
+        'level_text': "Theorem C04_resolves, generic in the payload type: for every well-formed check set, level and requested version (latest or v1.N, N unbounded) the loop-level model of populate/inflateVersions/EvaluatePod returns exactly the resolution rule `spec` at the version clamped to the newest revision; C04_privileged; C04_latest_is_newest; C04_refuses: the validator accepts a check set if and only if it is well formed (distinct ids, level baseline/restricted, non-empty strictly increasing proper v1.N revisions, overrides only by restricted checks and only of baseline checks), and C04_accepted_resolves composes the two. Random valid and malformed check sets with marker functions are run through the real NewEvaluator and compared with the model and with an independent Go transcription of the rule and of the malformedness list.",
+        'level_note': "Trusted: Lean kernel; harness. Domain: revisions with major version 1 (a revision with another major makes the real NewEvaluator loop forever; outside the property's list). C04_refuses is proved on that same domain (revision versions latest / zero value / v1.N).",
         'rule': "random check sets (0-6 checks, ids with duplicates, valid/invalid levels, 0-4 revisions increasing / equal / decreasing / unset / latest, overrides to baseline / restricted / missing ids / by baseline checks); 60% valid; each accepted set queried at 3 levels x v1.0..v1.14, latest, v1.1000000. distinct_nontrivial = accepted sets with an override and a multi-revision check",
     },
     'C05': {
@@ -81,13 +81,13 @@ PROPS = {
     },
     'C15': {
         'race': True,
-        'level_text': "Theorems C15_sequence / C15_interleaving (the model controller's only state, the shared response cells, is never written; every history and interleaving gives each request its solo response) and the regenerated structural obligations C15_responses_fresh (F6: every store to an AdmissionResponse field in package admission goes through a fresh response; shared ones are written by init only) and C15_no_global_state (F8). One real Admission handles random request batches sequentially and from 16 goroutines under the race detector; every response is DeepEqual-compared with a fresh controller's.",
+        'level_text': "Theorems C15_sequence / C15_interleaving (the model controller's only state, the shared response cells, is never written; every history and interleaving gives each request its solo response) and the regenerated structural obligations C15_responses_fresh (F6: every store to an AdmissionResponse field in package admission goes through a fresh response; shared ones are written by init only) C15_no_global_state (F8) and C15_no_receiver_state (F9: no method writes through its receiver or into package-level maps / sync state outside CompleteConfiguration, so the controller keeps no cache between requests). The repository's own client-backed NamespaceGetter / PodLister are run in front of a slow fake API server with overlapping requests, some of which give up early; one real Admission handles random request batches sequentially and from 16 goroutines under the race detector; every response is DeepEqual-compared with a fresh controller's.",
         'level_note': "Trusted: Lean kernel; factx's go/ssa origin analysis; harness. The model is stateless by construction, so the substance of the tie is the structural facts plus the runtime comparison. Partial: data-race freedom is observed, not proved.",
         'rule': "batches of 48 mixed pod / controller / namespace requests over a 6-namespace cluster (several namespaces share an effective policy, some with fail-open label typos), real evaluator; 2 sequential passes in random order + 16 concurrent passes per batch. distinct_nontrivial = requests",
     },
     'C16': {
         'race': True,
-        'level_text': "Theorems C16_uid (interleaving machine of HandleValidate: for every number of in-flight reviews and every schedule each answer carries its own uid, in the `copies` variant), C16_variant_is_copies (fact F6: the code stores the UID through a fresh object), C16_buggy_witness (the pre-fix variant fails on a 5-step schedule), C16_malformed / C16_wellformed (request screening), C16_limit. The real handler is driven over HTTP by 16 concurrent clients under the race detector, each verdict compared with a fresh admission controller's, plus every malformed class.",
+        'level_text': "Theorems C16_uid (interleaving machine of HandleValidate: for every number of in-flight reviews and every schedule each answer carries its own uid, in the `copies` variant), C16_variant_is_copies (fact F6: the code stores the UID through a fresh object), C16_buggy_witness (the pre-fix variant fails on a 5-step schedule), C16_malformed / C16_wellformed (request screening), C16_limit. The real handler is driven over HTTP by 16 concurrent clients under the race detector: pod reviews with unique uids, 1200 mixed reviews (controllers, namespaces with populations, subresources, undecodable / absent objects, request noise) whose whole decision is compared with the library's on the equivalent attributes, every malformed class, and good reviews padded to the size limit sent with a Content-Length and streamed.",
         'level_note': "Trusted: Lean kernel; harness; factx's origin analysis. Partial: net/http, JSON codec and goroutine scheduling are not modelled (sequentially consistent interleaving of three atomic steps per request); data races are observed with the race detector. Two genuine defects were found and fixed (known_findings.json).",
         'rule': "16 clients x N pod CREATE/UPDATE reviews with unique uids over privileged (shared response), exempt, baseline, restricted and malformed-label namespaces; 16 malformed classes (sizes around 3 MiB, content types, undecodable, v1beta1, other kind, no request). distinct_nontrivial = reviews sent",
     },
@@ -118,7 +118,7 @@ PROPS = {
         'assumptions': ["data-race freedom is observed with the Go race detector, not proved"],
     },
     'C19': {
-        'level_text': "Theorems C19_off / C19_on_frame / C19_on_three_waived / C19_on_others and their lift to whole evaluations: for every pod, revision, level and version the relaxation switch changes nothing unless hostUsers=false and then only procMount, runAsNonRoot, runAsUser (which allow). Every revision x switch x hostUsers value compared with the real code with the real process-wide switch toggled.",
+        'level_text': "Theorems C19_off / C19_on_frame / C19_on_three_waived / C19_on_others and their lift to whole evaluations: for every pod, revision, level and version the relaxation switch changes nothing unless hostUsers=false and then only procMount, runAsNonRoot, runAsUser (which allow); C19_switch_last_call / C19_off_after_history: after any history of setter calls the switch is what the administrator's last call said, and C19_switch_is_plain_store (F9) ties that to the code. Every revision x switch x hostUsers value compared with the real code with the real process-wide switch toggled, and every setter call sequence up to length 5 run on the real switch.",
         'level_note': "Trusted: Lean kernel, harness, that the model's relax parameter is the code's atomic switch (checked by the differential run with the switch toggled).",
         'rule': "every shipped revision x relaxation on/off x hostUsers unset/true/false on generated pods; frame conditions checked relationally on the real code and against the model. "
                 "distinct_nontrivial = (pod, control) pairs where the relaxation actually flipped a denial",
